@@ -270,6 +270,14 @@ func closeModePolarity(c *Ctx, id string) {
 							case *ssa.Go:
 								if y.Common().StaticCallee() == g {
 									blocks = append(blocks, x.Block())
+									if h != fn {
+										// spawned from a callback of fn: where that callback is created
+										allInstrs(fn, func(z ssa.Instruction) {
+											if mc, ok := z.(*ssa.MakeClosure); ok && mc.Fn == ssa.Value(h) {
+												blocks = append(blocks, z.Block())
+											}
+										})
+									}
 								}
 							}
 						})
@@ -333,6 +341,28 @@ func workersSignal(names ...string) func(c *Ctx, id string) {
 			if fn == nil {
 				c.Undecided(id, "workers-signal:"+name, 0, "function %s not found", name)
 				continue
+			}
+			// the fan-out may live in a helper the named function calls
+			hasWait := func(f *ssa.Function) bool {
+				found := false
+				allInstrs(f, func(in ssa.Instruction) {
+					if cc := callOf(in); cc != nil && strings.HasSuffix(calleeName(cc), "WaitGroup).Wait") {
+						found = true
+					}
+				})
+				return found
+			}
+			if !hasWait(fn) {
+				var cands []*ssa.Function
+				for f := range w.syncCallees(fn, 2, false) {
+					if f != fn && f.Pkg == fn.Pkg && hasWait(f) {
+						cands = append(cands, f)
+					}
+				}
+				sort.Slice(cands, func(i, j int) bool { return fname(cands[i]) < fname(cands[j]) })
+				if len(cands) == 1 {
+					fn = cands[0]
+				}
 			}
 			c.see(fn)
 			var wait ssa.Instruction
@@ -471,6 +501,24 @@ func upsertLadder(c *Ctx, id string) {
 			}
 		}
 	}
+	if !gKNF {
+		// the test may live in a helper predicate over the upsert's error (isKeyNotFound(err))
+		gKNF = guardedBy(create.Block(), true, func(v ssa.Value) bool {
+			call, ok := v.(*ssa.Call)
+			if !ok || call.Common().StaticCallee() == nil || !w.inModule(call.Common().StaticCallee()) {
+				return false
+			}
+			for _, a := range call.Common().Args {
+				if unwrap(a) == ssa.Value(first) || isExtractOf(unwrap(a), first) {
+					return true
+				}
+			}
+			return false
+		})
+		if gKNF {
+			gFail = true // the predicate is about a failure of that upsert
+		}
+	}
 	c.Check(gFail && gKNF, id, "upsert-ladder:create", create.Pos(), "the document is created only after the upsert failed with key-not-found", fmt.Sprintf("the create step is not guarded by (first upsert failed: %v) ∧ (status = key not found: %v)", gFail, gKNF))
 	// second upsert: only after create succeeded
 	for _, u := range ups {
@@ -576,6 +624,8 @@ func observeCallbackExact(c *Ctx, id string) {
 	io := w.Method("couchbase", rec.Obj().Name(), "IsOutdated")
 	c.need(gm != nil && io != nil, id, "getMinSeqNo / IsOutdated")
 	resP, errP := cb.Params[0].Name(), cb.Params[1].Name()
+	c.need(len(obs.Params) == 6, id, "observe(vbID, copy index, generation, branch id, wait group)")
+	rN, idxN, genN, brN := obs.Params[0].Name(), obs.Params[2].Name(), obs.Params[3].Name(), obs.Params[4].Name()
 	rmClosed := flagSetBy(w, w.Method("couchbase", "rollbackMitigation", "Stop"))
 	if rmClosed == "" {
 		rmClosed = "closed"
@@ -588,11 +638,11 @@ func observeCallbackExact(c *Ctx, id string) {
 	}
 	classes := []string{"ErrUnambiguousTimeout", "ErrTemporaryFailure", "ErrBusy", "other"}
 	h := &Harness{Fn: cb, Quiet: quietLog, NoInline: noinl, MaxSteps: 6000,
-		Bools:   []string{"r." + rmClosed, errP + "==nil", "found", "outdated"},
+		Bools:   []string{rN + "." + rmClosed, errP + "==nil", "found", "outdated"},
 		Choices: map[string]int{"class": len(classes), "ncopies": 3, "replica": 2},
-		Groups:  []Group{{Atoms: []string{"r.activeGroupID", "groupID"}, EqOnly: true}, {Atoms: []string{"vbUUID", resP + ".VbUUID"}, EqOnly: true}},
+		Groups:  []Group{{Atoms: []string{rN + ".activeGroupID", genN}, EqOnly: true}, {Atoms: []string{brN, resP + ".VbUUID"}, EqOnly: true}},
 		Args: map[string]func(st *State) AV{
-			"replica": func(st *State) AV { return avPtr{&cell{typ: types.Typ[types.Int], val: avInt{conc: int64(st.C("replica"))}, have: true, sym: "replica"}} },
+			idxN: func(st *State) AV { return avPtr{&cell{typ: types.Typ[types.Int], val: avInt{conc: int64(st.C("replica"))}, have: true, sym: idxN}} },
 		},
 		Valid: func(st *State) bool {
 			if st.B(errP+"==nil") && st.C("class") != len(classes)-1 {
@@ -646,13 +696,25 @@ func observeCallbackExact(c *Ctx, id string) {
 				order = append(order, "min")
 			}
 		}
+		// the record may be updated through setters (effects above) or by direct field stores (written cells)
+		direct := 0
+		for i := 0; i < 3; i++ {
+			for _, f := range []string{"seqNo", "vbUUID"} {
+				if out.Final(fmt.Sprintf("copy%d->.%s", i, f)) != nil || out.Final(fmt.Sprintf("copy%d.%s", i, f)) != nil {
+					direct++
+					if i != st.C("replica") {
+						return fmt.Sprintf("the report is recorded on copy %d, not on the reported copy %d", i, st.C("replica"))
+					}
+				}
+			}
+		}
 		if len(done) != 1 || order[0] != "done" {
 			return fmt.Sprintf("the round's wait group is signalled %d times (first effect: %v) — the observe round would hang or panic", len(done), order)
 		}
-		stale := st.B("r."+rmClosed) || !st.Eq("r.activeGroupID", "groupID")
+		stale := st.B(rN+"."+rmClosed) || !st.Eq(rN+".activeGroupID", genN)
 		transient := !st.B(errP+"==nil") && st.C("class") < 3
 		fatal := !st.B(errP+"==nil") && st.C("class") == 3
-		quiet := len(sets)+len(disp)+len(uuidStores) == 0
+		quiet := len(sets)+direct+len(disp)+len(uuidStores) == 0
 		switch {
 		case stale:
 			if out.Panicked || !quiet {
@@ -684,8 +746,8 @@ func observeCallbackExact(c *Ctx, id string) {
 			return ""
 		}
 		if st.B("outdated") {
-			if len(sets) != 2 || len(disp) != 1 {
-				return fmt.Sprintf("an outdated record: %d field updates and %d dispatches (expected 2 and 1)", len(sets), len(disp))
+			if len(sets)+direct != 2 || len(disp) != 1 {
+				return fmt.Sprintf("an outdated record: %d field updates and %d dispatches (expected 2 and 1)", len(sets)+direct, len(disp))
 			}
 			// both updates on the reported copy, before the minimum is taken, which is before the dispatch
 			want := fmt.Sprintf("copy%d", st.C("replica"))
@@ -695,14 +757,18 @@ func observeCallbackExact(c *Ctx, id string) {
 				}
 			}
 			seq := strings.Join(order, " ")
-			if !strings.Contains(seq, "set set min dispatch") {
+			wantSeq := "set set min dispatch"
+			if direct == 2 {
+				wantSeq = "min dispatch" // (that the stores precede the minimum is decided by C07.R5 dispatch-order)
+			}
+			if !strings.Contains(seq, wantSeq) {
 				return "order of effects is " + seq + ", expected: both updates, then the minimum, then the dispatch"
 			}
-		} else if len(sets)+len(disp) != 0 {
+		} else if len(sets)+direct+len(disp) != 0 {
 			return "an unchanged report is recorded or dispatched again"
 		}
 		wantUUID := 0
-		if !st.Eq("vbUUID", resP+".VbUUID") {
+		if !st.Eq(brN, resP+".VbUUID") {
 			wantUUID = 1
 		}
 		if len(uuidStores) != wantUUID {
@@ -800,7 +866,13 @@ func mitigationLifecycle(c *Ctx, id string) {
 	})
 	// …and that is the flag the callback and the observe loop read
 	readBy := 0
-	for _, f := range []*ssa.Function{so, m("observe")} {
+	readers := []*ssa.Function{so, m("observe")}
+	for f := range w.syncCallees(so, 2, false) {
+		if f.Pkg == so.Pkg && f != so && f != m("observe") && f.Signature.Recv() != nil && recvTypeName(f.Signature.Recv().Type()) == "rollbackMitigation" {
+			readers = append(readers, f)
+		}
+	}
+	for _, f := range readers {
 		if f == nil {
 			continue
 		}
@@ -1160,26 +1232,34 @@ func observeRoundAccounting(c *Ctx, id string) {
 	rec := replicaStateType(w)
 	c.need(so != nil && ob != nil && rec != nil, id, "rollbackMitigation.startObserve / observe")
 	var cb *ssa.Function
-	for _, f := range withAnon(so) {
-		if f == so {
-			continue
+	unit := map[*ssa.Function]bool{so: true}
+	for f := range w.syncCallees(so, 2, false) {
+		if f.Pkg == so.Pkg && f.Signature.Recv() != nil && recvTypeName(f.Signature.Recv().Type()) == "rollbackMitigation" && f != ob {
+			unit[f] = true
 		}
-		if len(callsIn(f, ob)) > 0 {
-			cb = f
+	}
+	for u := range unit {
+		for _, f := range withAnon(u) {
+			if f.Parent() != nil && len(callsIn(f, ob)) > 0 {
+				cb = f
+			}
 		}
 	}
 	c.need(cb != nil && len(cb.Params) == 2, id, "the Range callback of the observe round")
+	owner := rootFn(cb)
+	c.need(len(owner.Params) >= 2, id, "the round's owner takes the generation")
+	rN, genN := owner.Params[0].Name(), owner.Params[len(owner.Params)-1].Name()
 	ia := w.Method("couchbase", rec.Obj().Name(), "IsAbsent")
 	c.need(ia != nil, id, "IsAbsent")
 	rmClosed := flagSetBy(w, w.Method("couchbase", "rollbackMitigation", "Stop"))
 	for k := 0; k <= 3; k++ {
 		kk := k
-		bools := []string{"r." + rmClosed}
+		bools := []string{rN + "." + rmClosed}
 		for i := 0; i < k; i++ {
 			bools = append(bools, fmt.Sprintf("absent%d", i))
 		}
 		h := &Harness{Fn: cb, Bools: bools, Quiet: quietLog, MaxSteps: 8000,
-			Groups:   []Group{{Atoms: []string{"r.activeGroupID", "groupID"}, EqOnly: true}},
+			Groups:   []Group{{Atoms: []string{rN + ".activeGroupID", genN}, EqOnly: true}},
 			NoInline: map[string]bool{fname(ob): true, fname(ia): true},
 			Args: map[string]func(st *State) AV{cb.Params[1].Name(): func(st *State) AV {
 				var cs []*cell
@@ -1207,7 +1287,7 @@ func observeRoundAccounting(c *Ctx, id string) {
 			if out.Panicked {
 				return "panics"
 			}
-			stale := st.B("r."+rmClosed) || !st.Eq("r.activeGroupID", "groupID")
+			stale := st.B(rN+"."+rmClosed) || !st.Eq(rN+".activeGroupID", genN)
 			nDone := len(out.Effects("(*sync.WaitGroup).Done"))
 			obs := out.Effects(fname(ob))
 			wantDone, wantObs := 0, 0
